@@ -83,6 +83,20 @@ CHECKS.update({
         design="4 C05"),
 })
 
+CHECKS.update({
+    "C15": dict(
+        text="Merkle.tla models the tree over an ideal injective hash (normal-form terms, empty subtrees as atoms); TLC "
+             "enumerates every tree size 1..9 (17 thorough) x three leaf patterns x every leaf index x claimed indices "
+             "inside and beyond the width (incl. i+m*2^h, i+2^20) x changed leaf / root / every single proof element / "
+             "shortened, lengthened and 31..34-element proofs, for both verifiers, and checks that the intended verifier "
+             "agrees with the declarative meaning (VerifyIff, LastIff, CreatedProofVerifies, LengthLimit, AlteredRejected); "
+             "every case is concretised with real hashes and the verdicts of check_proof / check_proof_last, the created "
+             "proof and the root are compared with the spec's.",
+        note="SHA-256 collision resistance trusted; tree sizes bounded (structured families, not all of 1..1024); " + TB,
+        technique="TLA+ spec over an ideal hash + TLC case enumeration + spec->code case replay",
+        design="4 C15"),
+})
+
 NOT_YET = {
     "C01": "check not built yet in this round (abstract protocol model + simulator planned, DESIGN 4 C01)",
     "C02": "check not built yet in this round (DESIGN 4 C02)",
